@@ -353,6 +353,8 @@ def path(n, fn=None):
         b = path(ch[0])
         if b is None:
             return None
+        if n.d.get("flat"):
+            return b        # a dissolved state struct (roles.flatten_state_structs): the enclosing object itself
         return b + (n.m,)
     if k == "UnaryOperator" and n.op in ("*", "&"):
         return path(n.children[0])
@@ -369,6 +371,41 @@ def path(n, fn=None):
         if a:
             return path(a[0])
     return None
+
+
+def ref_local(n):
+    """n (stripped) is a local declared as an lvalue reference (`frame &sup = *...;`): a member access on it is a read
+    through the pointer it was bound from"""
+    x = std_unwrap(n)
+    if x.kind != "DeclRefExpr" or not x.get("local"):
+        return False
+    m = getattr(x.fn, "_local_ref_types", None)
+    if m is None:
+        m = set()
+        for y in x.fn.all_nodes():
+            if y.kind == "DeclStmt":
+                for d_ in y.get("decls", []):
+                    t = (d_.get("t") or "").rstrip()
+                    if t.endswith("&") and not t.endswith("&&"):
+                        m.add(d_["d"])
+        x.fn._local_ref_types = m
+    return x.d["d"] in m or x.d["d"] in _ref_decls(x.fn)
+
+
+def _ref_decls(fn):
+    """decl ids of the parameters and locals of fn that are declared as lvalue references to a class type"""
+    r = getattr(fn, "_ref_decl_ids", None)
+    if r is None:
+        r = set()
+        try:
+            for p in fn.params():
+                t = (p.get("t") or "").rstrip()
+                if t.endswith("&") and not t.endswith("&&") and p.get("rt"):
+                    r.add(p["d"])
+        except Exception:
+            pass
+        fn._ref_decl_ids = r
+    return r
 
 
 def canon(n, env=None, depth=0):
@@ -404,6 +441,12 @@ def canon(n, env=None, depth=0):
         if n.op in ("*", "&"):
             # address-of / deref cancel in paths; keep them visible otherwise
             inner = canon(n.children[0], env, depth + 1)
+            if n.op == "&":
+                # the address of what a reference parameter / reference local names is the pointer that a pointer-taking
+                # spelling of the same helper would have been handed: `f(T &x) { g(&x); x.a }` reads like `f(T *x) { g(x); x->a }`
+                o = std_unwrap(n.children[0])
+                if o.kind == "DeclRefExpr" and o.d.get("d") in _ref_decls(n.fn):
+                    return inner
             return "(%s %s)" % (n.op, inner)
         return "(%s%s %s)" % (n.op, "post" if n.get("post") else "", canon(n.children[0], env, depth + 1))
     if k in ("BinaryOperator", "CompoundAssignOperator"):
